@@ -59,6 +59,9 @@ def main():
         m = json.load(open(p))
         if only and m["property"] != only:
             continue
+        if m.get("superseded"):
+            print("| `%s` | %s | SUPERSEDED: %s |" % (m["name"], m["property"], m["superseded"][:110]))
+            continue
         todo.append((m["name"], m["property"]))
     nproc = max(2, 16 // jobs)
     bad = 0
